@@ -287,14 +287,16 @@ fn paren_depth(text: &str) -> usize {
     max
 }
 
-/// Known finding `slow:aiken-parser:nested-parens`: parse time doubles with every level of
-/// parenthesis nesting. Inputs nested deeper than this are excluded by construction (and counted)
-/// so that the search continues behind the finding instead of tripping the watchdog.
-const MAX_PAREN_DEPTH: usize = 10;
+/// Finding `slow:aiken-parser:nested-parens` (parse time doubling with every level of
+/// parenthesis nesting) was excluded by construction above depth 10 while it was open; since its
+/// repair the limit only keeps generated text within what the recursive-descent parser's stack
+/// can take (deeper inputs are the business of the `deep-term` shapes, which run in their own
+/// process).
+const MAX_PAREN_DEPTH: usize = 400;
 
 fn aiken_text(text: &str, st: &mut Stats) -> CheckResult {
     if paren_depth(text) > MAX_PAREN_DEPTH {
-        st.class("excluded:known-finding:nested-parens");
+        st.class("excluded:paren-depth-above-400");
         return Ok(());
     }
     let input = json!({"source": text});
